@@ -185,3 +185,15 @@ ADDENDA = {
 }
 for _k, _v in ADDENDA.items():
     CHECKS[_k]["text"] += _v
+
+# dimensions added after the eighth wave (DESIGN.md 10.17)
+ADDENDA8 = {
+ "C06": " Literal types mixing values that are equal in Python but distinct on the wire (True / 1 / IntEnum 1 / Enum with value 1, False / 0, '1'): every ordered pair and triple over 12 values, bare, as a field and as a list element.",
+ "C07": " Aliased fields: 10 default kinds (converting, pass-through and Any types) x 2 fields x alias written in metadata / Annotated / Config.aliases x allow_deserialization_not_by_alias x presence under the alias, the field's own name, both, or null.",
+ "C08": " A class nested in itself (typing.Self, its own name, its own name under postponed annotations; Optional / List / Dict positions): every Config vector x Config.dialect x flag subset x keyword combination on seven trees - the options must reach every level.",
+ "C13": " A class-form SerializationStrategy object for a type the orjson dialect has its own entry for (UUID); one Dialect class handed to the codecs of two formats (every ordered pair): the second format's documents and decoded values must equal those of a fresh dialect.",
+ "C14": " Finer scheduling points (every library source line that calls setattr / getattr / hasattr / exec, touches __dict__, a *_cache or __mashumaro* attribute, or names a module-level mutable object - found by an AST scan of the current tree) for five harnesses at preemption bound 1 (quick) and every two-thread harness (thorough).",
+ "C17": " Decoding a VALID document of a class that is not a module attribute is judged separately from the error paths (for dataclass kinds it must work).",
+}
+for _k, _v in ADDENDA8.items():
+    CHECKS[_k]["text"] += _v
